@@ -338,9 +338,8 @@ class MarshalSerializer(SerializerBase):
         data = self._convertToBytes(data)
         return self.recreate_classes(marshal.loads(data))
 
-    def convert_obj_into_marshallable(self, obj):
-        marshalable_types = (str, int, float, type(None), bool, complex, bytes, bytearray,
-                             tuple, set, frozenset, list, dict)
+    def convert_obj_into_marshallable(self, obj, _containers=()):
+        marshalable_types = (str, int, float, type(None), bool, complex, bytes, bytearray)
         if isinstance(obj, array.array):
             if obj.typecode == 'c':
                 return obj.tostring()
@@ -349,6 +348,17 @@ class MarshalSerializer(SerializerBase):
             return obj.tolist()
         if isinstance(obj, marshalable_types):
             return obj
+        # containers: their members need the same treatment (marshal has no hook for nested objects)
+        if isinstance(obj, (tuple, list, set, frozenset, dict)):
+            if id(obj) in _containers:
+                raise ValueError("can't serialize circular references")
+            _containers += (id(obj),)
+            if isinstance(obj, dict):
+                return {key: self.convert_obj_into_marshallable(value, _containers) for key, value in obj.items()}
+            converted = [self.convert_obj_into_marshallable(value, _containers) for value in obj]
+            if isinstance(obj, list):
+                return converted
+            return frozenset(converted) if isinstance(obj, frozenset) else set(converted) if isinstance(obj, set) else tuple(converted)
         return self.class_to_dict(obj)
 
     @classmethod
